@@ -48,7 +48,8 @@ func (p *ParserZH) ParseAST(l *syntax.Lexer) (pg *syntax.Program, err error) {
 
 	// ensure there's no remaining token after parsing global block
 	if p.peek().Type != TypeEOF {
-		err = p.getInvalidSyntaxCurr()
+		// the offending token is the remaining one, not the last token of the block
+		err = p.getInvalidSyntaxPeek()
 	}
 	return
 }
